@@ -639,7 +639,11 @@ func (s *Serializer) Deserialize(src []byte, dst *ParsedJson) (*ParsedJson, erro
 			if off+1 >= len(dst.Tape) {
 				return dst, errors.New("tags extended beyond tape")
 			}
-			dst.Tape[off] = binary.LittleEndian.Uint64(values[:8])
+			fv := binary.LittleEndian.Uint64(values[:8])
+			if Tag(fv>>JSONTAGOFFSET) != TagFloat {
+				return dst, fmt.Errorf("reading %v: stored tape entry is not a float", tag)
+			}
+			dst.Tape[off] = fv
 			dst.Tape[off+1] = binary.LittleEndian.Uint64(values[8:16])
 			values = values[16:]
 			off += 2
